@@ -3,7 +3,6 @@
    handle points at. *)
 From V.model Require Import Base Deb822Lex Deb822Parse Deb822Edit Deb822Store.
 From V.proofs Require Import BaseP Deb822EditP Deb822StoreP.
-Set Default Timeout 60.
 
 (* ------------------------------------------------------------------ splice_children(i..i+1, []) *)
 Lemma splice_delete_spec ts rs pr tid ri T p kd pre x post :
